@@ -1,6 +1,7 @@
 package type1
 
 import (
+	"bytes"
 	"crypto/sha256"
 	"fmt"
 
@@ -63,6 +64,13 @@ func (s BasicPrivateTokenRequestState) FinalizeToken(tokenResponseEnc []byte) (t
 	token, err := UnmarshalPrivateToken(tokenData)
 	if err != nil {
 		return tokens.Token{}, err
+	}
+
+	// Sanity check: the parsed token must carry exactly the input the
+	// authenticator was computed over (it does not if the request was created
+	// with a nonce or key id of the wrong length)
+	if !bytes.Equal(token.AuthenticatorInput(), s.tokenInput) || !bytes.Equal(token.Authenticator, outputs[0]) {
+		return tokens.Token{}, fmt.Errorf("token does not match the request")
 	}
 
 	return token, nil
